@@ -115,6 +115,8 @@ def run_dag(ctx, n, tiny):
             k = rng.choice([1, 2, 2, 3]) if not tiny else rng.choice([1, 1, 2, 2, 3])
             args = dict(args, k=k, solver_options=dict(errlib.SOLVER))
             cur["args"] = args
+            args = errlib.attach_numpy(ctx, "kLeastAbsErrors", args, errlib.numpy_spec(ctx.rng(stream + "-np", i)))
+            cur["args"] = args
             exact = args["weight_type"] == int
             lpdump.reset()
             try:
@@ -196,6 +198,8 @@ def run_cyclic(ctx, n):
             k = rng.choice([1, 2, 2, 3])
             args = dict(args, k=k, solver_options=dict(errlib.SOLVER, time_limit=8))   # random cyclic instances: a hard MILP is counted as unsolved:kTimeLimit, not waited for
             cur["args"] = args
+            args = errlib.attach_numpy(ctx, "kLeastAbsErrorsCycles", args, errlib.numpy_spec(ctx.rng("lae-cyc-np", i)))
+            cur["args"] = args
             try:
                 m = fp.kLeastAbsErrorsCycles(**errlib.clean_args(args)); m.solve()
             except (ValueError, OverflowError) as e:
@@ -232,12 +236,14 @@ def run_family(ctx):
     solved (they respect the repetition caps of the code as it is, so the open cap findings do not apply) with exactly
     that objective"""
     import flowpaths as fp
-    for fam in errlib.cyclic_families():
+    for fi, fam in enumerate(errlib.cyclic_families()):
         for k in fam["k_list"]:
             def _one(cur):
                 if k is None:
                     return
                 args = dict(G=fam["G"], flow_attr="flow", k=k, weight_type=fam["weight_type"], solver_options=dict(errlib.SOLVER))
+                cur["args"] = args
+                args = errlib.attach_numpy(ctx, "kLeastAbsErrorsCycles", args, errlib.NP_ROT[fi % len(errlib.NP_ROT)])
                 cur["args"] = args
                 rep = {"class": "kLeastAbsErrorsCycles", "family": fam["name"], "args": errlib.describe(args), "closed_form_optimum": str(fam["lae_opt"])}
                 try:
